@@ -13,6 +13,8 @@
 mod files;
 #[path = "../shared/c04_fmt.rs"]
 mod fmt;
+#[path = "../shared/c04_bytes.rs"]
+mod bytes;
 
 use noodles_bgzf::VirtualPosition as VP;
 use noodles_core::Position;
@@ -325,6 +327,7 @@ fn generate(rng: &mut Rng, tier: &str, w: &mut CaseWriter) {
     files::generate(rng, tier, w);
     // real files with their virtual offsets in the case text, against NV.Index.Formats
     fmt::generate(rng, tier, w);
+    bytes::generate(rng, tier, w);
     // alignment_end from POS and CIGAR against NV.Index.AlignEnd
     let n = if thorough { 6000 } else { 300 };
     for _ in 0..n {
@@ -410,7 +413,7 @@ fn run(c: &Case) -> Obs {
     match c.kind.as_str() {
         "idx" => run_idx(c),
         "aend" => run_aend(c),
-        k => fmt::run(c).or_else(|| files::run(c)).unwrap_or_else(|| Obs::fail("-", "harness-unknown-kind", k)),
+        k => fmt::run(c).or_else(|| bytes::run(c)).or_else(|| files::run(c)).unwrap_or_else(|| Obs::fail("-", "harness-unknown-kind", k)),
     }
 }
 
